@@ -383,6 +383,10 @@ func (p *policy) addressArg() string {
 		return pick(r, "5", "0", "x", "0x", "0b", "-1", "1_000", "0x1g", "08", "18446744073709551616", "0b12", "", "0xFFFFFFFFFFFFFFFF", "07", "00",
 			"0o17", "0O7", "0x_ff", "0x1_0", "0_7", "0b1_0", "+5", "0x-1", " 5", "1e3", "0x10000000000000000", "0b"+strings.Repeat("1", 65))
 	}
+	if r.Chance(1, 14) {
+		// the last address there is (nothing can be stored in a row behind it)
+		return spellNumber(r, new(big.Int).SetUint64(^uint64(0)-uint64(r.Intn(2))), false)
+	}
 	if r.Chance(1, 12) {
 		// a well-formed number with a blank that is not a space glued to it
 		// (the command line is split at spaces only)
@@ -615,7 +619,14 @@ func (p *policy) choose(o *Obs) Ev {
 			}
 		}
 		if p.walker && (o.Reg == "x5" || o.Reg == "x6") && r.Chance(5, 6) {
-			return emit(Ev{K: "line", S: spellNumber(r, big.NewInt(int64(0x20000+r.Intn(72))), false)})
+			a := uint64(0x20000 + r.Intn(72))
+			if p.s != nil && p.s.ld != nil && p.s.ld.Mem != nil && len(p.s.ld.Mem.Blocks) > 0 && r.Chance(1, 3) {
+				// just before the end of one of the image's blocks: the access
+				// runs over the edge (into a hole, or into the next block)
+				b := p.s.ld.Mem.Blocks[r.Intn(len(p.s.ld.Mem.Blocks))]
+				a = uint64(b.End()) - uint64(r.Range(1, 7))
+			}
+			return emit(Ev{K: "line", S: spellNumber(r, new(big.Int).SetUint64(a), false)})
 		}
 		if r.Chance(1, 6) {
 			if s, ok := p.pointerToTheEdge(o); ok {
@@ -770,7 +781,7 @@ func (e *Engine) Generate(r *core.Rand, prop string, tier string) core.Trace {
 	if prop == "C22" {
 		p.pGarbage = r.Range(5, 45)
 	}
-	if r.Chance(1, 5) {
+	if r.Chance(1, 5) || (prop == "C22" && r.Chance(1, 5)) {
 		p.walker = true
 		p.budget, p.pGarbage, p.pStream = r.Range(20, 80), r.Intn(3), 0
 	}
